@@ -477,6 +477,7 @@ def main():
     seed = int(os.environ.get("VERIF_SEED", "0") or 0)
     tier = a.tier if a.tier in ("quick", "thorough") else "quick"
     groups = select_groups(prop, tier, a.only)
+    groups.sort(key=lambda g: -g.get("priority", 0))  # stable: longest group first where the table says so
     if not groups:
         log("no harness groups for", prop)
         return 2
